@@ -286,7 +286,7 @@ def execDirective (w : World) (d : Directive) : World :=
   | .cancel => w.cancelFut
   | .drop => w.dropConn
   | .setpid n =>
-    if w.fut.isSome then w.emit "bad-op"
+    if w.fut.isSome || n = 0 || n > 65535 then w.emit "bad-op"
     else { w with sess := w.sess.setPid n }
   | .decode bs => w.emit (decodeLine bs)
 
